@@ -263,6 +263,33 @@ def check_props(ctx, extra_Q=(), props_file=None, workdir=None):
     return True, {}
 
 
+def run_coqchk(ctx):
+    """thorough tier: re-check Props/<id>.vo and everything it depends on with the independent checker coqchk and
+    collect the axioms it reports (the whole dependency cone, stdlib included)."""
+    r = sh(["timeout", "2400", "coqchk", "-silent", "-o", "-Q", os.path.join(COQ, "theories"), "QV", "QV.Props." + ctx.prop_id], timeout=2500)
+    out = r.stdout + r.stderr
+    axioms, grab = [], False
+    for line in out.splitlines():
+        t = line.strip()
+        if t.startswith("* Axioms:"):
+            grab = True
+            rest = t[len("* Axioms:"):].strip()
+            if rest and rest != "<none>":
+                axioms.append(rest)
+            continue
+        if grab:
+            if t.startswith("* "):
+                grab = False
+            elif t and t != "<none>":
+                axioms.append(t.split()[0])
+    bad = [a for a in axioms if a not in ALLOWED_AXIOMS and a.split(".")[-1] not in ALLOWED_AXIOMS]
+    unsafe = [l.strip() for l in out.splitlines() if ("type-in-type" in l or "unsafe (co)fixpoints" in l or "positivity is assumed" in l) and "<none>" not in l]
+    ctx.coqchk = {"exit": r.returncode, "axioms": axioms, "unsafe_flags": unsafe}
+    if r.returncode != 0 or bad or unsafe:
+        ctx.violation("coqchk", "coqchk", "coqchk-rejects", "coqchk exit %d, disallowed axioms %s, unsafe %s: %s" % (r.returncode, bad, unsafe, out[-400:]),
+                      {"output": out[-3000:]}, no_input=True)
+
+
 def write_evidence(ctx, level="proof", extra_assumptions=()):
     cov = {
         "obligations": ctx.obligations, "discharged": ctx.discharged,
@@ -276,6 +303,7 @@ def write_evidence(ctx, level="proof", extra_assumptions=()):
         "known_findings_hit": [{"site": a, "signature": b, "what": c} for a, b, c in ctx.known_hits],
         "notes": ctx.notes,
         "extraction_crosscheck": getattr(ctx, "extraction_crosscheck", None),
+        "coqchk": getattr(ctx, "coqchk", "not run in this tier (thorough tier only)"),
     }
     ev = {"property_id": ctx.prop_id, "tier": ctx.tier, "seed": ctx.seed, "level": level, "coverage": cov,
           "assumptions": list(TRUSTED_BASE) + list(extra_assumptions) + list(getattr(ctx, "assumptions", [])),
@@ -311,6 +339,9 @@ def main():
             mod.replay(ctx, doc)
         else:
             mod.run(ctx)
+
+    if ok and tier == "thorough" and not a.replay and not os.environ.get("VERIF_DEV") and not os.environ.get("VERIF_NO_COQCHK"):
+        run_coqchk(ctx)
 
     # cross-check the extracted driver against vm_compute on a sample of this run's own requests
     if ctx.model is not None and ok:
